@@ -1,5 +1,501 @@
 import QModel.Core
-/-! C13 — model (not built yet) -/
+/-!
+# C13 — no hidden state, no operand mutation: the stateful parts of quara as explicit state machines
+
+The pure functions of the library are the specification; what this file models is the *state* the
+implementation keeps between calls, exactly as the code keeps it:
+
+* (a) `CompositeSystem` caches (composite_system.py:94-102, 228-467): nine lazily built tables, five
+  builders (two builders fill several tables at once), eight `delete_*` methods;
+* (b) loss objects (probability_based_loss_function.py:343-374 wiring order,
+  weighted_probability_based_squared_error.py:138-177 `_set_weights_by_mode`,
+  standard_qtomography_based_weighted_probability_based_squared_error.py:74-135 extended weights):
+  one machine, two observers (the generic loss reads `weights`, the fast loss reads `ext`);
+* (c) algorithm object (projected_gradient_descent.py:238-282): `_qt`, `_func_proj`;
+* (d) `Settings` atol (settings.py) set / restore;
+* (e) `MProcess.calc_proj_eq_constraint_with_var` (mprocess.py:440-466, 1009-1089) with the aliasing
+  between its argument and the reshaped views it writes to.
+
+The model mirrors the code *as it is*, including the order-dependence defects (DESIGN §5 D5, D9, D10).
+-/
 namespace QM.C13
-def handle (_args : List String) : Option String := none
+
+/-! ## (a) CompositeSystem caches -/
+
+/-- the nine cache attributes, in the order of `__init__` (composite_system.py:94-102) -/
+inductive Key
+  | bbc      -- _basis_basisconjugate
+  | hs2choi  -- _dict_from_hs_to_choi
+  | choi2hs  -- _dict_from_choi_to_hs
+  | bT       -- _basis_T_sparse
+  | bconj    -- _basisconjugate_sparse
+  | bconjb   -- _basisconjugate_basis_sparse
+  | bbcT     -- _basis_basisconjugate_T_sparse
+  | bbcT1    -- _basis_basisconjugate_T_sparse_from_1
+  | bhbT1    -- _basishermitian_basis_T_from_1
+deriving DecidableEq, Repr
+
+def Key.all : List Key :=
+  [.bbc, .hs2choi, .choi2hs, .bT, .bconj, .bconjb, .bbcT, .bbcT1, .bhbT1]
+
+/-- the five builders: the inline loops of `basis_basisconjugate`, `dict_from_hs_to_choi`,
+`dict_from_choi_to_hs`, and `_calc_basis_sparse`, `_calc_basis_basisconjugate_sparse` -/
+inductive Grp
+  | bbc | hs2choi | choi2hs | basisSparse | bbcSparse
+deriving DecidableEq, Repr
+
+/-- which builder the getter of a table runs when the table is `None` -/
+def Key.grp : Key → Grp
+  | .bbc => .bbc | .hs2choi => .hs2choi | .choi2hs => .choi2hs
+  | .bT => .basisSparse | .bconj => .basisSparse
+  | .bconjb => .bbcSparse | .bbcT => .bbcSparse | .bbcT1 => .bbcSparse | .bhbT1 => .bbcSparse
+
+/-- `_basis_basisconjugate` has no `delete_*` method; the other eight have one -/
+def Key.deletable : Key → Bool
+  | .bbc => false
+  | _ => true
+
+/-- cache state: which tables are built, and with which content -/
+abbrev Cache (T : Type) := Key → Option T
+
+def Cache.empty {T : Type} : Cache T := fun _ => none
+
+/-- a builder assigns *every* table of its group (and nothing else) -/
+def build {T : Type} (tbl : Key → T) (g : Grp) (s : Cache T) : Cache T :=
+  fun k => if k.grp = g then some (tbl k) else s k
+
+inductive COp
+  | get (k : Key)
+  | delete (k : Key)
+deriving DecidableEq, Repr
+
+inductive COut (T : Type)
+  | table (v : Option T)   -- what the getter returns (`None` would be returned as such)
+  | deleted
+  | noMethod               -- AttributeError: there is no such delete method
+deriving DecidableEq, Repr
+
+/-- one call on a CompositeSystem. `tbl k` is the table the builder computes from the (immutable) basis. -/
+def cstep {T : Type} (tbl : Key → T) (s : Cache T) : COp → Cache T × COut T
+  | .get k =>
+      let s' := if (s k).isNone then build tbl k.grp s else s
+      (s', .table (s' k))
+  | .delete k =>
+      if k.deletable then (fun j => if j = k then none else s j, .deleted) else (s, .noMethod)
+
+/-- a history of calls; outputs in call order -/
+def crun {T : Type} (tbl : Key → T) : Cache T → List COp → Cache T × List (COut T)
+  | s, [] => (s, [])
+  | s, op :: ops =>
+      let r := cstep tbl s op
+      let rest := crun tbl r.1 ops
+      (rest.1, r.2 :: rest.2)
+
+/-- the invariant: whatever is built is the pure table -/
+def CacheOk {T : Type} (tbl : Key → T) (s : Cache T) : Prop := ∀ k v, s k = some v → v = tbl k
+
+/-! ## (b) loss objects -/
+
+/-- `mode_weight`. `invCov` stands for `inverse_sample_covariance` / `inverse_unbiased_covariance`
+(the weights computed from the data are a parameter); `ignored` is `unbiased_inverse_covariance`, which the option
+constructor accepts and `_set_weights_by_mode` has no branch for. -/
+inductive Mode
+  | identity | custom | invCov | ignored
+deriving DecidableEq, Repr
+
+/-- the arguments of one `set_from_standard_qtomography_option_data` call.
+`A` : what `qt.calc_matA(), qt.calc_vecB()` return; `Q` : the empirical distributions; `W` : a list of weight matrices. -/
+structure Cfg (A Q W : Type) where
+  mode : Mode
+  optWeights : Option W   -- option.weights
+  matA : A
+  q : Q
+  dataW : W               -- inverse-covariance weights of *this* data (numpy `inv` result; used by `invCov` only)
+  gradReq : Bool          -- algo.is_gradient_required
+
+/-- attributes of the loss object. `ext` records the weight list from which `_extend_weight_matrix` was built
+(`np.block` of it is a pure function, applied by the observer). -/
+structure Loss (A Q W : Type) where
+  option : Option (Mode × Option W)
+  q : Option Q
+  matA : Option A
+  weights : Option W
+  ext : Option W
+
+def Loss.fresh {A Q W : Type} : Loss A Q W := ⟨none, none, none, none, none⟩
+
+/-- a loss object constructed with `weight_matrices=w` -/
+def Loss.freshW {A Q W : Type} (w : Option W) : Loss A Q W := ⟨none, none, none, w, none⟩
+
+inductive LOp (A Q W : Type)
+  | setOption (m : Mode) (w : Option W)       -- set_from_option
+  | setQ (q : Q)                              -- set_prob_dists_q
+  | setFuncProb (a : A)                       -- set_func_prob_dists_from_standard_qt
+  | setFuncGrad (a : A)                       -- set_func_gradient_prob_dists_from_standard_qt
+  | setWeightsByMode (m : Mode) (dataW : W)   -- _set_weights_by_mode(option.mode_weight, data)
+
+/-- `_calc_extend_weight_matrix`: returns early — leaving the previous `_extend_weight_matrix` in place — when
+`weight_matrices is None`; otherwise rebuilds from the *current* `weight_matrices`. -/
+def calcExt {A Q W : Type} (s : Loss A Q W) : Loss A Q W :=
+  match s.weights with
+  | none => s
+  | some w => { s with ext := some w }
+
+def lstep {A Q W : Type} (s : Loss A Q W) : LOp A Q W → Loss A Q W
+  | .setOption m w => { s with option := some (m, w) }
+  | .setQ q => { s with q := some q }
+  | .setFuncProb a => calcExt { s with matA := some a }
+  | .setFuncGrad a => calcExt { s with matA := some a }
+  | .setWeightsByMode m dw =>
+      match m with
+      | .identity => s                                            -- `pass`
+      | .custom => { s with weights := s.option.bind (·.2) }      -- set_weight_matrices(self.option.weights)
+      | .invCov => { s with weights := some dw }
+      | .ignored => s                                             -- no branch
+
+/-- the setter calls of `set_from_standard_qtomography_option_data`, in the order the code issues them -/
+def cfgOps {A Q W : Type} (c : Cfg A Q W) : List (LOp A Q W) :=
+  [.setOption c.mode c.optWeights, .setQ c.q, .setFuncProb c.matA]
+    ++ (if c.gradReq then [.setFuncGrad c.matA] else [])
+    ++ [.setWeightsByMode c.mode c.dataW]
+
+def configure {A Q W : Type} (s : Loss A Q W) (c : Cfg A Q W) : Loss A Q W :=
+  (cfgOps c).foldl lstep s
+
+/-- a loss object taken through the datasets of a history -/
+def lrun {A Q W : Type} (s : Loss A Q W) (h : List (Cfg A Q W)) : Loss A Q W :=
+  h.foldl configure s
+
+/-- what `value/gradient` of the generic loss read -/
+def obsGen {A Q W : Type} (s : Loss A Q W) : Option A × Option Q × Option W := (s.matA, s.q, s.weights)
+/-- what `value/gradient` of the fast loss read -/
+def obsFast {A Q W : Type} (s : Loss A Q W) : Option A × Option Q × Option W := (s.matA, s.q, s.ext)
+
+/-! ### concrete evaluation (the driver runs this at `Rat`) -/
+section wse
+variable {K : Type} [Add K] [Mul K] [Sub K] [Zero K]
+
+def ldot (u v : List K) : K := lsum ((u.zip v).map fun p => p.1 * p.2)
+
+/-- `matA @ var + vecB - q` -/
+def residual (matA : List (List K)) (vecB var q : List K) : List K :=
+  ((matA.map fun r => ldot r var).zip (vecB.zip q)).map fun p => p.1 + p.2.1 - p.2.2
+
+/-- `np.block` of the block-diagonal arrangement; every block is expected `s × s` -/
+def blockDiag (s : Nat) (ws : List (List (List K))) : List (List K) :=
+  let k := ws.length
+  (ws.zipIdx.map fun (p : List (List K) × Nat) =>
+    p.1.map fun row => List.replicate (p.2 * s) 0 ++ row ++ List.replicate ((k - 1 - p.2) * s) 0).flatten
+
+/-- `a · (C b)` -/
+def quad (a b : List K) (c : List (List K)) : K := ldot a (c.map fun r => ldot r b)
+
+/-- `value` of the fast squared-error loss: extended weights if present, plain inner product otherwise -/
+def wseValueFast (s : Nat) (matA : List (List K)) (vecB var q : List K) (ext : Option (List (List (List K)))) :
+    Option K :=
+  let v := residual matA vecB var q
+  match ext with
+  | some ws =>
+      -- `np.block` needs equal block shapes, the product needs matching sizes (ValueError otherwise)
+      if ws.all (fun w => w.length == s && w.all (·.length == s)) && ws.length * s == v.length
+      then some (quad v v (blockDiag s ws)) else none
+  | none => some (ldot v v)
+
+/-- one block of `x` of size `s` starting at block index `i` -/
+def chunk (s i : Nat) (x : List K) : List K := (x.drop (i * s)).take s
+
+/-- `value` of the generic squared-error loss: per-schedule sum, `if self.weight_matrices:` (empty list is falsy) -/
+def wseValueGen (s n : Nat) (matA : List (List K)) (vecB var q : List K) (w : Option (List (List (List K)))) :
+    Option K :=
+  let v := residual matA vecB var q
+  ((List.range n).mapM fun i =>
+    let vi := chunk s i v
+    match w with
+    | some (w0 :: ws) => ((w0 :: ws)[i]?).map fun wi => quad vi vi wi     -- IndexError when the list is too short
+    | _ => some (ldot vi vi)).map lsum
+
+/-- `loss.value(var)` of the fast loss on the object's current attributes (`none`: attributes unset / shape error) -/
+def valueFast (s : Nat) (st : Loss (List (List K) × List K) (List K) (List (List (List K)))) (var : List K) : Option K := do
+  let ab ← st.matA
+  let q ← st.q
+  wseValueFast s ab.1 ab.2 var q st.ext
+
+/-- `loss.value(var)` of the generic loss on the object's current attributes -/
+def valueGen (s : Nat) (st : Loss (List (List K) × List K) (List K) (List (List (List K)))) (var : List K) : Option K := do
+  let ab ← st.matA
+  let q ← st.q
+  wseValueGen s (q.length / s) ab.1 ab.2 var q st.weights
+end wse
+
+/-! ## (c) algorithm object -/
+
+/-- the projection installed by `set_constraint_from_standard_qt_and_option`: which of the four branches, built
+from which tomography (`QT` is the identity of the qtomography object) -/
+inductive Proj (QT : Type)
+  | physical (qt : QT) (ineqEq : Bool) (maxIt : Option Nat)   -- func_calc_proj_physical_with_var(mode_proj_order, max_iteration)
+  | eq (qt : QT)
+  | ineq (qt : QT)
+  | self                                                       -- func_proj.proj_to_self()
+deriving DecidableEq, Repr
+
+structure AlgoOpt where
+  onEq : Bool
+  onIneq : Bool
+  ineqEq : Bool            -- mode_proj_order == "ineq_eq"
+  maxIt : Option Nat
+deriving DecidableEq, Repr
+
+def projOf {QT : Type} (qt : QT) (o : AlgoOpt) : Proj QT :=
+  if o.onEq && o.onIneq then .physical qt o.ineqEq o.maxIt
+  else if o.onEq then .eq qt
+  else if o.onIneq then .ineq qt
+  else .self
+
+structure Algo (QT : Type) where
+  qt : Option QT
+  funcProj : Option (Proj QT)
+
+def Algo.fresh {QT : Type} : Algo QT := ⟨none, none⟩
+
+/-- `set_constraint_from_standard_qt_and_option`: `_qt` is always replaced; `_func_proj` only when it is `None` -/
+def setConstraint {QT : Type} (s : Algo QT) (c : QT × AlgoOpt) : Algo QT :=
+  match s.funcProj with
+  | some _ => { s with qt := some c.1 }
+  | none => { qt := some c.1, funcProj := some (projOf c.1 c.2) }
+
+def arun {QT : Type} (s : Algo QT) (h : List (QT × AlgoOpt)) : Algo QT := h.foldl setConstraint s
+
+/-! ## (d) global tolerance -/
+
+inductive AOp
+  | set (v : Rat)       -- Settings.set_atol(float)
+  | setBad              -- Settings.set_atol(non-float): TypeError, nothing changes
+  | read                -- Settings.get_atol()
+deriving DecidableEq, Repr
+
+inductive AOut
+  | ok | typeError | value (v : Rat)
+deriving DecidableEq, Repr
+
+def astep (a : Rat) : AOp → Rat × AOut
+  | .set v => (v, .ok)
+  | .setBad => (a, .typeError)
+  | .read => (a, .value a)
+
+def arunAtol : Rat → List AOp → Rat × List AOut
+  | a, [] => (a, [])
+  | a, op :: ops =>
+      let r := astep a op
+      let rest := arunAtol r.1 ops
+      (rest.1, r.2 :: rest.2)
+
+/-- `set x; body; set old` where `old` is what `get_atol()` returned before -/
+def bracket (old x : Rat) (body : List AOp) : List AOp := .set x :: body ++ [.set old]
+
+/-- `eps_proj_physical if eps_proj_physical else Settings.get_atol() / 10.0` (0 and None are both falsy) -/
+def ctorEps (atol : Rat) (eps : Option Rat) : Rat :=
+  match eps with
+  | some e => if e = 0 then atol / 10 else e
+  | none => atol / 10
+
+/-! ## (e) `MProcess.calc_proj_eq_constraint_with_var` with its aliasing -/
+section projeq
+variable {K : Type} [Add K] [Mul K] [Sub K] [Zero K] [One K]
+
+def vadd (u v : List K) : List K := (u.zip v).map fun p => p.1 + p.2
+def vsub (u v : List K) : List K := (u.zip v).map fun p => p.1 - p.2
+def e0 (n : Nat) : List K := (List.range n).map fun i => if i = 0 then 1 else 0
+
+/-- `vector.reshape((m, n, n))` as a list of `m` matrices given as row lists -/
+def reshapeHss (m n : Nat) (x : List K) : List (List (List K)) :=
+  (List.range m).map fun o => (List.range n).map fun r => (x.drop (o * n * n + r * n)).take n
+
+/-- `convert_var_to_hss`: with the flag the first row of the last matrix is reconstructed and a *new* array is made
+(`copy.copy`, `np.insert`); without the flag the matrices are views of `var` itself. The Bool says whether the result
+aliases the argument. -/
+def varToHss (n m : Nat) (flag : Bool) (var : List K) : List (List (List K)) × Bool :=
+  if flag then
+    let hsSize := n * n
+    let sumFirst := (List.range (m - 1)).foldl (fun acc o => vadd acc ((var.drop (hsSize * o)).take n))
+      (List.replicate n 0)
+    let firstRowLast := vsub (e0 n) sumFirst
+    let vector := var.take (hsSize * (m - 1)) ++ firstRowLast ++ var.drop (hsSize * (m - 1))
+    (reshapeHss m n vector, false)
+  else (reshapeHss m n var, true)
+
+/-- `convert_hss_to_var` -/
+def hssToVar (flag : Bool) (hss : List (List (List K))) : List K :=
+  if flag then
+    (hss.zipIdx.map fun (p : List (List K) × Nat) =>
+      if p.2 = hss.length - 1 then (p.1.drop 1).flatten else p.1.flatten).flatten
+  else (hss.map fun h => h.flatten).flatten
+
+/-- the loop `vec += hs[0]`, `vec[0] -= 1`, `hs[0] -= vec / len(hss)`; `invm` is `1/len(hss)` -/
+def projRows (n : Nat) (invm : K) (hss : List (List (List K))) : List (List (List K)) :=
+  let vec0 := hss.foldl (fun acc hs => vadd acc (hs.headD [])) (List.replicate n 0)
+  let vec := vsub vec0 (e0 n)
+  hss.map fun hs =>
+    match hs with
+    | [] => []
+    | r0 :: rs => vsub r0 (vec.map fun x => x * invm) :: rs
+
+/-- result and the content of the *argument array* after the call. `m` = number of outcomes
+(`var.shape[0] // hs_size (+ 1)` in the code, resolved by the caller), `n = dim²`. -/
+def projEqWithVar (n m : Nat) (invm : K) (flag : Bool) (var : List K) : List K × List K :=
+  let (hss, aliased) := varToHss n m flag var
+  let newHss := projRows n invm hss
+  let newVar := hssToVar flag newHss
+  -- the in-place `hs[0] -= …` writes through the views: the argument buffer now holds the flattened new matrices
+  (newVar, if aliased then (newHss.map fun h => h.flatten).flatten else var)
+end projeq
+
+/-! ## driver -/
+
+def Key.ofNat? : Nat → Option Key
+  | 0 => some .bbc | 1 => some .hs2choi | 2 => some .choi2hs | 3 => some .bT | 4 => some .bconj
+  | 5 => some .bconjb | 6 => some .bbcT | 7 => some .bbcT1 | 8 => some .bhbT1 | _ => none
+
+def Key.toNat : Key → Nat
+  | .bbc => 0 | .hs2choi => 1 | .choi2hs => 2 | .bT => 3 | .bconj => 4
+  | .bconjb => 5 | .bbcT => 6 | .bbcT1 => 7 | .bhbT1 => 8
+
+/-- `g3` / `d5` -/
+def parseCOp? (s : String) : Option COp :=
+  match s.toList with
+  | 'g' :: r => (String.ofList r).toNat? |>.bind Key.ofNat? |>.map COp.get
+  | 'd' :: r => (String.ofList r).toNat? |>.bind Key.ofNat? |>.map COp.delete
+  | _ => none
+
+def showMask {T : Type} (s : Cache T) : String :=
+  String.ofList (Key.all.map fun k => if (s k).isSome then '1' else '0')
+
+/-- replies, per op: `<output>:<built mask>`; output of a get is the table id the getter returned -/
+def cacheTrace (ops : List COp) : String :=
+  let rec go (s : Cache Nat) : List COp → List String
+    | [] => []
+    | op :: r =>
+        let x := cstep Key.toNat s op
+        let o := match x.2 with
+          | .table (some v) => s!"t{v}"
+          | .table none => "tNone"
+          | .deleted => "del"
+          | .noMethod => "noMethod"
+        s!"{o}:{showMask x.1}" :: go x.1 r
+  ";".intercalate (go Cache.empty ops)
+
+abbrev RW := List (List (List Rat))
+
+def parseMat? (rows cols : Nat) (s : String) : Option (List (List Rat)) := do
+  let xs ← parseList? parseRat? s
+  if xs.length ≠ rows * cols then none
+  else some ((List.range rows).map fun r => (xs.drop (r * cols)).take cols)
+
+/-- `-` = None, otherwise `k` blocks of `s × s` -/
+def parseW? (s : Nat) (t : String) : Option (Option RW) :=
+  if t = "-" then some none else do
+    let xs ← parseList? parseRat? t
+    if s = 0 || xs.length % (s * s) ≠ 0 then none
+    else
+      let k := xs.length / (s * s)
+      some (some ((List.range k).map fun b =>
+        (List.range s).map fun r => (xs.drop (b * s * s + r * s)).take s))
+
+def parseMode? : String → Option Mode
+  | "i" => some .identity | "c" => some .custom | "v" => some .invCov | "u" => some .ignored | _ => none
+
+/-- one dataset: `mode|optW|dataW|grad|A|b|q` -/
+def parseCfg? (s nvar : Nat) (t : String) : Option (Cfg (List (List Rat) × List Rat) (List Rat) RW) :=
+  match t.splitOn "|" with
+  | [m, ow, dw, g, a, b, q] => do
+      let mode ← parseMode? m
+      let ow ← parseW? s ow
+      let dw ← parseW? s dw
+      let b ← parseList? parseRat? b
+      let q ← parseList? parseRat? q
+      let a ← parseMat? b.length nvar a
+      if q.length ≠ b.length then none
+      else some { mode := mode, optWeights := ow, matA := (a, b), q := q, dataW := dw.getD [], gradReq := g = "1" }
+  | _ => none
+
+/-- `loss <fast|gen> <s> <nvar> <var> <ctorW> <cfg>…` → value at `var` after each dataset -/
+def lossTrace (fast : Bool) (s : Nat) (var : List Rat) (w0 : Option RW)
+    (cfgs : List (Cfg (List (List Rat) × List Rat) (List Rat) RW)) : String :=
+  let rec go (st : Loss (List (List Rat) × List Rat) (List Rat) RW) :
+      List (Cfg (List (List Rat) × List Rat) (List Rat) RW) → List String
+    | [] => []
+    | c :: r =>
+        let st' := configure st c
+        let v : Option Rat := if fast then valueFast s st' var else valueGen s st' var
+        (match v with | some x => showRat x | none => "err") :: go st' r
+  ";".intercalate (go (Loss.freshW w0) cfgs)
+
+def showProj : Proj Nat → String
+  | .physical qt ie mi => s!"physical.{qt}.{if ie then 1 else 0}.{match mi with | some k => toString k | none => "N"}"
+  | .eq qt => s!"eq.{qt}"
+  | .ineq qt => s!"ineq.{qt}"
+  | .self => "self"
+
+/-- one call: `qt,eq,ineq,ineqEq,maxIt` (maxIt `N` = None) -/
+def parseCall? (t : String) : Option (Nat × AlgoOpt) :=
+  match t.splitOn "," with
+  | [qt, e, i, o, mi] => do
+      let qt ← qt.toNat?
+      let mi ← if mi = "N" then some none else mi.toNat?.map some
+      some (qt, ⟨e = "1", i = "1", o = "1", mi⟩)
+  | _ => none
+
+def algoTrace (calls : List (Nat × AlgoOpt)) : String :=
+  let rec go (s : Algo Nat) : List (Nat × AlgoOpt) → List String
+    | [] => []
+    | c :: r =>
+        let s' := setConstraint s c
+        s!"{match s'.qt with | some q => toString q | none => "N"}:{match s'.funcProj with | some p => showProj p | none => "N"}"
+          :: go s' r
+  ";".intercalate (go Algo.fresh calls)
+
+def parseAOp? (t : String) : Option AOp :=
+  if t = "r" then some .read
+  else if t = "b" then some .setBad
+  else match t.splitOn ":" with
+    | ["s", v] => (parseRat? v).map AOp.set
+    | _ => none
+
+def showAOut : AOut → String
+  | .ok => "ok" | .typeError => "typeError" | .value v => showRat v
+
+def handle (args : List String) : Option String :=
+  match args with
+  | ["cache", ops] => do
+      let ops ← parseList? parseCOp? ops
+      some (cacheTrace ops)
+  | "loss" :: kind :: s :: nvar :: var :: w0 :: cfgs => do
+      let fast ← (if kind = "fast" then some true else if kind = "gen" then some false else none)
+      let s ← s.toNat?
+      let nvar ← nvar.toNat?
+      let var ← parseList? parseRat? var
+      let w0 ← parseW? s w0
+      let cfgs ← cfgs.mapM (parseCfg? s nvar)
+      if var.length ≠ nvar then none else some (lossTrace fast s var w0 cfgs)
+  | ["algo", calls] => do
+      let calls ← (calls.splitOn ";").mapM parseCall?
+      some (algoTrace calls)
+  | ["atol", a0, ops] => do
+      let a0 ← parseRat? a0
+      let ops ← parseList? parseAOp? ops
+      let r := arunAtol a0 ops
+      some (showRat r.1 ++ " " ++ showList showAOut r.2)
+  | ["ctoreps", atol, eps] => do
+      let atol ← parseRat? atol
+      let eps ← if eps = "N" then some none else (parseRat? eps).map some
+      some (showRat (ctorEps atol eps))
+  | ["mprojeq", n, m, flag, var] => do
+      let n ← n.toNat?
+      let m ← m.toNat?
+      let var ← parseList? parseRat? var
+      if m = 0 then none else
+      let flag := flag = "1"
+      let r := projEqWithVar n m ((1 : Rat) / (m : Rat)) flag var
+      some (showList showRat r.1 ++ " " ++ showList showRat r.2)
+  | _ => none
+
 end QM.C13
